@@ -173,7 +173,13 @@ class DataSaveable:
         axis.length = len(points)
         axis.start = points[0]
         if len(points) > 1:
-            axis.step = points[1] - points[0]
+            # the step is a difference: it is taken from the internal values 
+            # (the points may be in a unit in which differences do not 
+            # convert, e.g. a wavelength) 
+            from .managers import energy_units
+            with energy_units("int"):
+                ipoints = axis.data
+                axis.step = ipoints[1] - ipoints[0]
 
 
     def _saveBinaryData(self, file, with_axis=None):
